@@ -389,7 +389,7 @@ theorem C01_ecdsa_witness :
     (4 :: List.replicate 64 (0x11 : UInt8)).length = 65 ∧
     Base64.decode (Base64.encode (4 :: List.replicate 64 0x11)) = some (4 :: List.replicate 64 0x11) := by
   refine ⟨?_, by simp, Base64.decode_encode _⟩
-  simp [p11ObjectToPublicKey, askOk, ask, bind, ecWitnessToken, attr1, attrBytes, ckkEc, ckkRsa,
+  simp [p11ObjectToPublicKey, ecUnwrap, ecUnwrapWith, askOk, ask, bind, ecWitnessToken, attr1, attrBytes, ckkEc, ckkRsa,
     ecOidP256, ecOidP384, pure, TokM.err, TokM.fail]
 
 /-- **What holds for ECDSA** (and every other algorithm): the tool's own verifier accepted each
